@@ -154,7 +154,7 @@ class Explorer:
             if miss:
                 ctx.broke('correspondence', 'PyMini summary vs observed writes', f'{owner_of(pass_, role)}.{role} changed {miss} of argument {idx}; the Coq summary allows {sorted(al)}')
 
-    def explore(self, label, mk, text, rnd, steps=40, fname='tc.c', sibling=True):
+    def explore(self, label, mk, text, rnd, steps=40, fname='tc.c', sibling=True, accept_prob=0.4):
         """drive one pass on one text along a random accept/reject history"""
         from cvise.passes.abstract import PassResult, ProcessEventNotifier
         ctx = self.ctx
@@ -177,6 +177,7 @@ class Explorer:
             ctx.count(f'new-raises:{type(e).__name__}')
             return
         hist = []
+        handed = []          # (cursor object, snapshot) of candidates already handed out and still in flight
         for k in range(steps):
             if state is None:
                 break
@@ -228,6 +229,8 @@ class Explorer:
                 break
             # --- advance must leave the cursor it is given (and every other handed-out cursor) untouched
             sb, pb = deep(state), deep(p)        # transform may have used its allowed report slot
+            handed.append((state, sb))
+            handed = handed[-80:]
             others = [copy.deepcopy(state)]
             ob = [deep(o) for o in others]
             try:
@@ -238,7 +241,11 @@ class Explorer:
             self.check_untouched(label, 'advance', p, state, sb, pb, rep)
             if [deep(o) for o in others] != ob:
                 ctx.violation(f'advance-disturbs-others:{label}', f'{label}.advance changed a cursor handed out earlier', rep)
-            accept = resn == 'OK' and cand_bytes is not None and cand_bytes != text.encode() and rnd.random() < 0.4
+            for age, (obj, snap) in enumerate(reversed(handed)):
+                if deep(obj) != snap:
+                    ctx.violation(f'advance-disturbs-others:{label}', f'{label}.advance (step {k}) changed the cursor handed out {age} step(s) earlier: {snap} -> {deep(obj)}'[:900], rep)
+                    return
+            accept = resn == 'OK' and cand_bytes is not None and cand_bytes != text.encode() and rnd.random() < accept_prob
             if accept:
                 # the winner's private copy (as it comes back from the worker) goes through advance_on_success
                 cd = os.path.join(self.d, 'cand0')
@@ -262,6 +269,7 @@ class Explorer:
                 with open(path, newline='') as f:
                     text = f.read()
                 hist.append(1)
+                handed = []      # a success discards the other in-flight candidates
             else:
                 hist.append(0)
             state = nxt
@@ -291,6 +299,13 @@ def explore(ctx):
         for text in texts:
             for rep_ in range(1 if ctx.quick() else 3):
                 ex.explore(label, lambda: c03.mk(cls, arg), text, rnd, steps=(25 if kind != 'peep' else 60))
+    # long rejection streaks on texts with many instances (cursors that compact / trim shared structure late)
+    many = ''.join(f' {i + 10}, 0x{i + 16:x};' for i in range(45)) + '\n'
+    manyb = ''.join('(a)' if i % 2 else '{b}' for i in range(90))
+    for entry in table:
+        kind, name, arg, cls = entry
+        if kind in ('list', 'pos') and (name != 'balanced' or arg in ('parens', 'curly-only')):
+            ex.explore(f'{name}::{arg}', lambda: c03.mk(cls, arg), many if kind == 'list' else manyb, random.Random(1), steps=100, accept_prob=0.0)
     # passes that call external tools: stand-ins
     from cvise.passes.ifs import IfPass
     from props.c05 import UNIFDEF
@@ -302,6 +317,17 @@ def explore(ctx):
                 p.max_transforms = None
                 return p
             ex.explore('ifs::None', mkif, t, rnd, steps=20)
+    for bad_tool in ('/nonexistent/unifdef', os.path.join(ctx.tmp, 'not-executable')):
+        if 'not-executable' in bad_tool:
+            with open(bad_tool, 'w') as f:
+                f.write('#!/bin/sh\nexit 0\n')
+            os.chmod(bad_tool, 0o644)
+
+        def mkbad(bad_tool=bad_tool):
+            p = IfPass(None, {'unifdef': bad_tool})
+            p.max_transforms = None
+            return p
+        ex.explore('ifs::None(tool cannot be started)', mkbad, iftexts[0], rnd, steps=3)
     for kind in ('bin', 'std'):
         for n in (1, 3, 6) if ctx.quick() else (1, 2, 3, 5, 8, 13):
             c15.setup(ctx, {})
